@@ -237,6 +237,16 @@ theorem readTree_enc (d : Der) (hw : d.WF) (hk : d.known = true) (hmax : d.enc.l
   rw [fromDerAny_enc_der d hw hk hmax]
   exact readNode_enc d hw hk hmax _ (by have := fuel_le d; simp only [fuelFor]; omega)
 
+/-- non-vacuity of `readTree_enc` / `fromDerAny_enc_der`: a tree with nested constructed values -/
+example : (Der.cons 0x30 [.prim 0x02 [5], .cons 0xA0 [.prim 0x0c [65]], .cons 0x31 []]).WF ∧
+    (Der.cons 0x30 [.prim 0x02 [5], .cons 0xA0 [.prim 0x0c [65]], .cons 0x31 []]).known = true ∧
+    (Der.cons 0x30 [.prim 0x02 [5], .cons 0xA0 [.prim 0x0c [65]], .cons 0x31 []]).enc.length ≤ DerRd.MAX_LEN :=
+  ⟨⟨by decide, by decide, by decide, ⟨by decide, by decide, by decide⟩,
+    ⟨by decide, by decide, by decide, ⟨by decide, by decide, by decide⟩, trivial⟩, ⟨by decide, by decide, by decide, trivial⟩, trivial⟩,
+   by decide, by decide⟩
+example : readTree [0x30, 10, 0x02, 1, 5, 0xA0, 3, 0x0c, 1, 65, 0x31, 0] =
+    some (.cons 0x30 [.prim 0x02 [5], .cons 0xA0 [.prim 0x0c [65]], .cons 0x31 []]) := rfl
+
 end Codec.Der
 
 /-! ## the converse: whatever the crate's routines accept is a canonical encoding -/
@@ -476,6 +486,16 @@ theorem readTree_iff_parseDer (l : List Nat) (hb : ∀ b ∈ l, b < 256) (hmax :
     obtain ⟨w, e⟩ := parseDer_sound l hb d h
     rw [e] at hmax ⊢
     exact (readTree_enc d w k hmax).1
+
+/-- non-vacuity of `readTree_iff_parseDer`, and the one difference between the readers: a universal tag the crate has no
+type for (`0x07` ObjectDescriptor) is admitted by `parseDer` and refused by `Tag::try_from` -/
+example : (∀ b ∈ [0x30, 3, 0x02, 1, 5], b < 256) ∧ [0x30, 3, 0x02, 1, 5].length ≤ DerRd.MAX_LEN ∧
+    readTree [0x30, 3, 0x02, 1, 5] = some (.cons 0x30 [.prim 0x02 [5]]) ∧
+    parseDer [0x30, 3, 0x02, 1, 5] = some (.cons 0x30 [.prim 0x02 [5]]) := ⟨by decide, by decide, rfl, rfl⟩
+example : parseDer [0x07, 0] = some (.prim 0x07 []) ∧ readTree [0x07, 0] = none ∧ (Der.prim 0x07 []).known = false :=
+  ⟨rfl, rfl, rfl⟩
+/-- a non-minimal length is refused by both -/
+example : parseDer [0x04, 0x81, 1, 7] = none ∧ readTree [0x04, 0x81, 1, 7] = none := ⟨rfl, rfl⟩
 
 end Codec.Der
 
